@@ -670,6 +670,7 @@ class Interp(object):
             except PyExc as e:
                 for h in node.handlers:
                     if self.handler_matches(h, e, env):
+                        self.trace.append(('except', e.kind, h.lineno))      # ghost marker in the effect trace
                         if h.name:
                             env.vars[h.name] = bi.CaughtExc(e)
                         old = getattr(self, 'handling', None)
@@ -910,8 +911,9 @@ class Interp(object):
                 mutated.add(n.value.id)
             if isinstance(n, ast.AugAssign) and isinstance(n.target, ast.Name):
                 assigned.add(n.target.id)
-        # the loop target of *this* loop is assigned by the loop itself
-        for nm in sorted(assigned | set(spec.extra_havoc)):
+        # the loop target of *this* loop is assigned by the loop itself before anything reads it
+        own = set(n.id for n in ast.walk(node.target) if isinstance(n, ast.Name)) if isinstance(node, ast.For) else set()
+        for nm in sorted((assigned - own) | set(spec.extra_havoc)):
             if not env.has(nm):
                 continue
             cur = env.lookup(nm)
@@ -920,7 +922,11 @@ class Interp(object):
                 continue
             if isinstance(cur, (SrcIter, MapIter)):
                 continue         # iterators: their position is havocked by the loop rule itself
-            self.set_var(env, nm, self.fresh_like(cur, nm, ty))
+            try:
+                self.set_var(env, nm, self.fresh_like(cur, nm, ty))
+            except Unsupported:
+                if spec.rebind is None:
+                    raise        # (with a rebind callback the contract re-creates such objects itself)
         for nm in sorted(mutated - assigned):
             if not env.has(nm):
                 continue
@@ -1006,14 +1012,20 @@ class Interp(object):
         for g in spec.ghost:
             self.ghost[g] = SInt(smt.fresh_int('ghost_' + g))
         st = LoopState(self, env, None)
+        if spec.rebind is not None:
+            spec.rebind(st)
         ctx.assume(spec.invariant(st))
         if self.truth(self.eval(node.test, env)):
+            st.trace_start = len(self.trace)
+            ctx.in_iteration = (label, None)
             try:
                 self.exec_block(node.body, env)
             except _Continue:
                 pass
             except _Break:
                 return
+            if spec.after_body is not None:
+                spec.after_body(st)
             ctx.oblige('%s: invariant preserved' % label, spec.invariant(LoopState(self, env, None)), self.where(node), 'inv-step')
             raise PathEnd()
         else:
